@@ -508,3 +508,8 @@ mod tests {
         quickcheck(prop as fn(_))
     }
 }
+
+#[cfg(kani)]
+pub(crate) mod verif {
+    include!(concat!(env!("LIBP2P_VERIF"), "/hooks/multistream_protocol.rs"));
+}
